@@ -1116,7 +1116,9 @@ func (m *Monitor) onSnapClose(ev *Event) {
 	if f.via == 0 {
 		// locally taken: label = content (C10 (1))
 		m.Counts["c10.local_snapshots"]++
-		if f.decodable {
+		// (not in puppet mode: the canonical history is built from observed applies, and operations that reached the
+		// one real node inside a snapshot of the scripted world were never applied by anybody)
+		if f.decodable && !m.Puppet {
 			cc, ch, cl := m.canonAt(f.idx)
 			if f.cnt != cc || f.chn != ch {
 				sig := "snapshot-content-mismatch"
